@@ -108,7 +108,7 @@ void SimBackend::InitCustomOptions() {
 bool SimBackend::IsMIP() const { return BaseBackend::IsMIP(); }
 bool SimBackend::IsQCP() const { return M().n_in_group(mp::CG_Quadratic) > 0; }
 
-void SimBackend::DoRegistrations(mp::Interrupter* inter, int at_iter) {
+void do_registrations(mp::Interrupter* inter, int at_iter) {
   const sim::Json& regs = g_script["registrations"];
   if (!regs.is_arr()) {
     if (at_iter < 0) {  // default: one registration
@@ -127,6 +127,8 @@ void SimBackend::DoRegistrations(mp::Interrupter* inter, int at_iter) {
     sim::g.event("SETHANDLER_END " + std::to_string(i));
   }
 }
+
+void SimBackend::DoRegistrations(mp::Interrupter* inter, int at_iter) { do_registrations(inter, at_iter); }
 
 void SimBackend::SetInterrupter(mp::Interrupter* inter) {
   Call("SetInterrupter");
